@@ -23,7 +23,7 @@ EXPLANATION = ('An abstract evaluation of the comparison-only function RuleEntry
                'on every opcode handler bound for constraint code, monotonicity of the pass index, and the size expression that '
                'wipes recycled slots.  The matching / precedence OUTPUT of rule programs against a reference semantics is a '
                'run-time fact and is not decided.')
-FLOORS = {'PRECEDENCE': 4, 'FIRSTPASSING': 1, 'PURECONSTRAINT': 30, 'PASSORDER': 1, 'RECYCLECLEAN': 1}
+FLOORS = {'PRECEDENCE': 4, 'FIRSTPASSING': 1, 'PURECONSTRAINT': 30, 'PASSORDER': 1, 'RECYCLECLEAN': 3}
 
 MUTATORS = {'graphite2::Slot::setGlyph', 'graphite2::Slot::attachTo', 'graphite2::Slot::child', 'graphite2::Slot::sibling', 'graphite2::Slot::removeChild',
             'graphite2::Slot::setAttr', 'graphite2::Segment::setFeature', 'graphite2::Segment::newSlot', 'graphite2::Segment::freeSlot',
@@ -278,32 +278,37 @@ def passorder(run, fx):
                      '(writes: %s)' % [fn.render(e) for e in writes])
 
 
-def recycleclean(run, fx):
-    fs = fx.one('graphite2::Segment::freeSlot')
-    ms = [e for e in calls_in(fs, 'memset') if 'userAttrs()' in fs.render(fs.N(e['args'][0]))]
-    if not ms:
-        run.violated('RECYCLECLEAN', 'freeSlot wipes user attributes', fs.where(), 'a recycled slot\'s user attributes are no longer cleared')
-        return
-    e = ms[0]
-    a0 = fs.strip_all_casts(e['args'][0])
-    elem = None
-    t = (a0.get('t') or '')
-    from .cfg import int_type
-    it = int_type(t.replace('*', '').strip())
-    esz = it[0] // 8 if it else None
-    size = fs.strip_all_casts(e['args'][2])
-    ok = False
-    txt = fs.render(size)
+def _userblock_size_ok(fn, size):
+    """size is (number of user attributes) * 2 bytes"""
+    size = fn.strip_all_casts(size)
     if size['k'] == 'BinaryOperator' and size['op'] == '*':
-        parts = [fs.strip_all_casts(x) for x in size['c']]
-        cnt = [p for p in parts if p['k'] == 'CXXMemberCallExpr' and (p.get('fq') or '').split('::')[-1] in ('numUser', 'numAttrs')]
-        k = [p.get('v') for p in parts if p.get('v') is not None]
-        ok = bool(cnt) and k == [esz]
-    if ok:
-        run.held('RECYCLECLEAN', 'freeSlot wipes user attributes', fs.loc(e), 'memset(userAttrs(), 0, %s): count * sizeof(element)' % txt)
-    else:
-        run.violated('RECYCLECLEAN', 'freeSlot wipes user attributes', fs.loc(e), 'the size of the wipe is `%s`, not (number of user attributes) * %s bytes: a slot recycled by a later INSERT '
-                     'keeps stale user attribute values and constraints that test them take the wrong branch' % (txt, esz))
+        parts = [fn.deref(x) for x in size['c']]
+        cnt = [p_ for p_ in parts if p_['k'] == 'CXXMemberCallExpr' and (p_.get('fq') or '').split('::')[-1] in ('numUser', 'numAttrs')]
+        k = [dom._cval(fn, x) for x in size['c'] if dom._cval(fn, x) is not None]
+        return bool(cnt) and k == [2]
+    return False
+
+
+def recycleclean(run, fx, vm=None):
+    """every block operation (memset / memcpy) on a slot's user-attribute array covers all of it: count * sizeof(int16)"""
+    sites = [(fx.one('graphite2::Segment::freeSlot'), 'freeSlot wipes user attributes', 'memset')]
+    if vm is not None:
+        for h in ('put_copy', 'temp_copy'):
+            if h in vm.handlers:
+                sites.append((vm.handlers[h], '%s copies user attributes' % h.upper(), 'memcpy'))
+    for fn, inst, what in sites:
+        ms = [e for e in calls_in(fn, what) if any('userAttrs()' in fn.render(fn.deref(a), resolve=True) for a in e['args'][:2])]
+        if not ms:
+            run.violated('RECYCLECLEAN', inst, fn.where(), 'the user-attribute block is no longer %s' % ('cleared when a slot is recycled' if what == 'memset' else 'copied with the slot'))
+            continue
+        e = ms[0]
+        txt = fn.render(fn.strip_all_casts(e['args'][2]))
+        if _userblock_size_ok(fn, e['args'][2]):
+            run.held('RECYCLECLEAN', inst, fn.loc(e), '%s(.., %s): count * sizeof(element)' % (what, txt))
+        else:
+            run.violated('RECYCLECLEAN', inst, fn.loc(e), 'the size of the %s is `%s`, not (number of user attributes) * 2 bytes: %s' % (
+                what, txt, 'a slot recycled by a later INSERT keeps stale user attribute values and constraints that test them take the wrong branch'
+                if what == 'memset' else 'the copy carries only part of the user attributes of its source, and constraints that test the others select the wrong rule'))
 
 
 def run(run):
@@ -315,4 +320,4 @@ def run(run):
     passorder(run, fx)
     from . import c19
     c19.dirflag(run, fx, 'PASSORDER')       # the reversed-stream flag that decides whether a pass re-reverses stays in step with the stream
-    recycleclean(run, fx)
+    recycleclean(run, fx, vm)
